@@ -429,6 +429,29 @@ theorem get_colinear_y_spec (p0 p1 : K × K) (x : K) :
   ⟨getColinearY_spec root p0 p1 x, getColinearY_none root p0 p1 x⟩
 example : ((1 : ℚ), (8 : ℚ)).1 ≠ ((2 : ℚ), (11 : ℚ)).1 := by norm_num
 
+/-- **`lagrange_interpolate_zipped`** (points given as pairs): for a non-empty list with pairwise distinct abscissae it
+    returns the unique interpolant; for the empty list and for a repeated abscissa it panics (the two `assert!`s). -/
+theorem lagrange_interpolate_zipped_spec {E : Ext K} (hE : E.Lawful) (points : List (K × K)) :
+    (points ≠ [] → (points.map (·.1)).Nodup →
+      ∃ f, lagrangeInterpolateZipped FK E points = some f ∧
+        Interpolates (points.map (·.1)) (points.map (·.2)) (denote f)) ∧
+    (points = [] ∨ ¬ (points.map (·.1)).Nodup → lagrangeInterpolateZipped FK E points = none) := by
+  constructor
+  · intro hne hn
+    unfold lagrangeInterpolateZipped
+    rw [if_neg (by simpa using hne), (allUnique_iff root _).2 hn]
+    simp only [Bool.not_true, Bool.false_eq_true, if_false]
+    exact lagrange_interpolate_spec root hE _ (by decide) _ _ hn (by simp)
+  · rintro (rfl | hd)
+    · rfl
+    · unfold lagrangeInterpolateZipped
+      split
+      · rfl
+      · have : allUnique FK (points.map (·.1)) = false := by
+          rw [Bool.eq_false_iff]; exact fun h => hd ((allUnique_iff root _).1 h)
+        rw [this]; rfl
+example : ([((1 : ℚ), (5 : ℚ)), (2, 7)].map (·.1)).Nodup := by decide
+
 /-- **hand-built zerofier trees.**  Every tree assembled from the public constructors `Leaf::new`, `Branch::new` and
     `Padding` — any shape: unbalanced, padding anywhere, empty or oversized leaves, for every zerofier cut-off `T ≥ 2` —
     is built without a panic, stores `∏ (X - x)` over the points below every node, and
